@@ -4,3 +4,5 @@ import Skv.Props.C11
 #print axioms C11_active_kept
 #print axioms C11_oldest_is_min
 #print axioms C11_witness_first_pointer
+#print axioms C11_pointers_resolve_during_compaction
+#print axioms hidden_inputs_must_be_counted
